@@ -30,9 +30,9 @@ func init() { register(c13{}) }
 func (c13) Meta() core.Meta {
 	return core.Meta{
 		ID: "C13", Level: "fault_enumeration",
-		Rule:        "case i = f(seed,i): a stream of 1..5 generated documents (XML through the C01 generator, or JSON objects whose keys/strings contain braces, quotes, backslashes, trailing escaped backslashes; compact or indented) with arbitrary inter-document whitespace, and one reader API family (XML / XML-Raw / Seq / Seq-Raw / JSON / JSON-Raw readers in a loop, the four bulk handlers incl. stop-after-k, x2j-wrapper ToMap loop and XmlMsgsFromReader, and bufio/bytes.Buffer sources). For that stream the single-fault delivery sweep is enumerated completely: for every byte position p one schedule with 1..7 consecutive (0,nil) reads before byte p, x both EOF modes (last byte together with io.EOF / separate (0,io.EOF)), plus the fault-free baselines; thorough adds random multi-fault schedules and multi-byte chunking. Offline checker over the recorded log: Maps in order == direct decode of each document then io.EOF; reader offset at each return within [doc end, next doc start] (no over-read); Raw == bytes consumed since the previous return; handlers called exactly once per document in order and never after returning false; number of Read calls <= bytes + injected empty reads + 2*(documents+1) + 4. Non-trivial: the schedule injects a fault or the stream has >=2 documents; distinct by hash(stream, api, schedule).",
+		Rule:        "case i = f(seed,i): a stream of 1..5 generated documents (XML through the C01 generator, or JSON objects whose keys/strings contain braces, quotes, backslashes, trailing escaped backslashes; compact or indented) with arbitrary inter-document whitespace, and one reader API family (XML / XML-Raw / Seq / Seq-Raw / JSON / JSON-Raw readers in a loop, the four bulk handlers incl. stop-after-k, x2j-wrapper ToMap loop and XmlMsgsFromReader, and bufio/bytes.Buffer sources). For that stream the single-fault delivery sweep is enumerated completely: for every byte position p one schedule with 1..7 consecutive (0,nil) reads before byte p, x both EOF modes (last byte together with io.EOF / separate (0,io.EOF)), plus the fault-free baselines and three long stalls (90..400 consecutive empty reads at the first, last and a random byte); thorough adds random multi-fault schedules and multi-byte chunking. Offline checker over the recorded log: Maps in order == direct decode of each document then io.EOF; reader offset at each return within [doc end, next doc start] (no over-read); Raw == bytes consumed since the previous return; handlers called exactly once per document in order and never after returning false; number of Read calls <= bytes + injected empty reads + 2*(documents+1) + 4. Non-trivial: the schedule injects a fault or the stream has >=2 documents; distinct by hash(stream, api, schedule).",
 		Assumptions: []string{"the io.Reader contract: (0,nil) and (n>0,io.EOF) are legal", "expected Maps are the library's own direct decode of each document's bytes (the property is stated as that equivalence)", "with io.ByteReader sources (bufio, bytes.Buffer) over-reading of the underlying reader is the caller's choice and is not asserted"},
-		Anchors:     []string{"NewMapXmlReader", "NewMapXmlReaderRaw", "NewMapXmlSeqReader", "NewMapXmlSeqReaderRaw", "NewMapJsonReader", "NewMapJsonReaderRaw", "getJson", "HandleXmlReader", "HandleXmlReaderRaw", "HandleJsonReader", "HandleJsonReaderRaw", "*teeReader.ReadByte", "*byteReader.ReadByte", "x2j-wrapper.XmlMsgsFromReader", "x2j-wrapper.ToMap"},
+		Anchors:     []string{"NewMapXmlReader", "NewMapXmlReaderRaw", "NewMapXmlSeqReader", "NewMapXmlSeqReaderRaw", "NewMapJsonReader", "NewMapJsonReaderRaw", "getJson", "NewMapsFromXmlFile", "NewMapsFromXmlFileRaw", "NewMapsFromJsonFile", "HandleXmlReader", "HandleXmlReaderRaw", "HandleJsonReader", "HandleJsonReaderRaw", "*teeReader.ReadByte", "*byteReader.ReadByte", "x2j-wrapper.XmlMsgsFromReader", "x2j-wrapper.ToMap"},
 		Floors:      map[string]int64{"schedule:eof-with-data": 5000, "schedule:empty-read-injected": 10000, "stream:multi-doc": 300, "json:trailing-escaped-backslash": 20, "json:brace-in-string": 50, "handler:stopped-early": 50, "returns-checked": 30000},
 		Exhaustive:  false,
 	}
@@ -127,7 +127,7 @@ type docSpan struct {
 
 var c13seps = []string{"", "", " ", "\n", " \n\t ", "\r\n", "\t"}
 
-var c13xmlgen = xt.GenCfg{Names: []string{"a", "b", "c", "x-y"}, Prefixes: []string{"", "", "ns"}, Texts: []string{"", "t", "x &amp; y", "<&>", " pad ", "1", "é", "a]]>b", "{", "}"}, MaxKids: 3, MaxAttrs: 2}
+var c13xmlgen = xt.GenCfg{Names: []string{"a", "b", "c", "x-y"}, Prefixes: []string{"", "", "ns"}, Texts: []string{"", "t", "x &amp; y", "<&>", " pad ", "1", "é", "a]]>b", "{", "}", "\ufeffq", "z\ufeff"}, MaxKids: 3, MaxAttrs: 2}
 
 var c13jsonAtoms = []string{"{", "}", `"`, `\`, `\\`, "[", "]", ":", ",", "a", " ", "é", "\n", `\"`, "}{", `A`, "/"}
 
@@ -591,6 +591,15 @@ func (c13) Case(c *core.Ctx) {
 		}
 	}
 	c.Count("streams-swept-exhaustively")
+	// long stalls: a run of 90..400 consecutive (0,nil) reads at one position (legal; bufio itself gives up after 100,
+	// so bufio sources are left out)
+	if api.byteSrc != "bufio" {
+		for i := 0; i < 3; i++ {
+			p := []int{0, len(stream) - 1, r.Intn(len(stream))}[i]
+			c.Count("schedule:long-stall")
+			c13run(c, api, stream, ds, wantFp, c13sched{zeroAt: map[int]int{p: 90 + r.Intn(311)}, eofWith: r.Intn(2) == 0, stopAt: stopAt}, c.Verbose)
+		}
+	}
 	if len(ds) >= 2 && (c.Index/len(c13apiList))%2 == 0 {
 		c13fileResume(c, api, stream, ds, wantFp)
 	}
@@ -634,6 +643,55 @@ func c13fileResume(c *core.Ctx, api c13api, stream string, ds []docSpan, wantFp 
 	defer fh.Close()
 	k := c.R.Intn(len(ds) - 1) // stop after document k (< last)
 	c.Eval()
+	// the file readers inherit the contract: same Maps in order; XML Raw values are precisely the bytes consumed
+	if !api.seq {
+		c.Count("file-reader-checks")
+		var fps []string
+		var raws []string
+		var ferr error
+		if api.json {
+			var ms mxj.Maps
+			ms, ferr = mxj.NewMapsFromJsonFile(fn)
+			for _, m := range ms {
+				fps = append(fps, jv.Fp(m))
+			}
+		} else if c.R.Intn(2) == 0 {
+			var ms mxj.Maps
+			ms, ferr = mxj.NewMapsFromXmlFile(fn)
+			for _, m := range ms {
+				fps = append(fps, jv.Fp(m))
+			}
+		} else {
+			var mr []mxj.MapRaw
+			mr, ferr = mxj.NewMapsFromXmlFileRaw(fn)
+			for _, m := range mr {
+				fps = append(fps, jv.Fp(m.M))
+				raws = append(raws, string(m.R))
+			}
+		}
+		fdet := core.D{"api": "file reader of the codec of " + api.name, "stream": stream, "documents": len(ds)}
+		if ferr != nil || len(fps) != len(ds) {
+			fdet["err"], fdet["maps_read"] = fmt.Sprint(ferr), len(fps)
+			c.Violate("c13-file-reader", "the file reader does not return one Map per document of a well-formed file", fdet)
+			return
+		}
+		for i := range fps {
+			if fps[i] != wantFp[i] {
+				fdet["document"] = i
+				c.Violate("c13-file-reader-map", "a Map from the file reader differs from decoding the document's bytes", fdet)
+				return
+			}
+		}
+		cat := ""
+		for i, rw := range raws {
+			if !strings.Contains(rw, ds[i].text) || !strings.HasPrefix(stream[len(cat):], rw) {
+				fdet["document"], fdet["raw"] = i, rw
+				c.Violate("c13-file-reader-raw", "a Raw value from NewMapsFromXmlFileRaw is not the bytes consumed for its document", fdet)
+				return
+			}
+			cat += rw
+		}
+	}
 	c.Count("file-resume-checks")
 	c.NonTrivial(stream, api.name, fmt.Sprint("file-resume", k))
 	det := core.D{"api": api.name, "stream": stream, "source": "*os.File", "first_phase_consumes_documents": k + 1}
